@@ -29,7 +29,15 @@ type Solver struct {
 	Res    map[string]int
 	cache  map[string]string
 	CacheHits int
+	Crashes   int     // times the solver process died on a query (restarted, query re-asked elsewhere)
+	timeoutMs int
+	fallback  *Solver // started on the first crash: another solver for the query that killed this one
+	noFallback bool
 }
+
+// solverDied is raised when the solver process closes its pipe in the middle of a query (cvc5
+// 1.0.3 aborts with "cadical: fatal error: invalid API usage" on some nonlinear-real queries).
+type solverDied struct{ why string }
 
 // SolverSpec: "cvc5", "z3", "z3-new", "cvc5-int" (cvc5 with --solve-bv-as-int=sum).
 func NewSolver(spec string, timeoutMs int) *Solver {
@@ -46,7 +54,7 @@ func NewSolver(spec string, timeoutMs int) *Solver {
 	default:
 		argv = strings.Fields(spec)
 	}
-	s := &Solver{Name: spec, argv: argv, Res: map[string]int{}, cache: map[string]string{}}
+	s := &Solver{Name: spec, argv: argv, Res: map[string]int{}, cache: map[string]string{}, timeoutMs: timeoutMs}
 	s.start()
 	return s
 }
@@ -109,7 +117,7 @@ func (s *Solver) line() string {
 	s.w.Flush()
 	l, err := s.out.ReadString('\n')
 	if err != nil {
-		panic(infraError{"solver " + s.Name + " died: " + err.Error()})
+		panic(solverDied{"solver " + s.Name + " died: " + err.Error()})
 	}
 	return strings.TrimSpace(l)
 }
@@ -175,7 +183,16 @@ func (s *Solver) sync(pc []*Term) {
 // transitively, with extra (constraint independence: the omitted constraints are over disjoint
 // variables and, being part of a satisfiable path condition, are satisfiable on their own, so the
 // verdict is exact). Verdicts are cached per (slice, extra) — slices recur across paths.
-func (s *Solver) CheckSliced(pc []*Term, extra []*Term) string {
+func (s *Solver) CheckSliced(pc []*Term, extra []*Term) (res string) {
+	defer func() {
+		if p := recover(); p != nil {
+			d, ok := p.(solverDied)
+			if !ok {
+				panic(p)
+			}
+			res = s.afterCrash(d, func(f *Solver) string { return f.CheckSliced(pc, extra) })
+		}
+	}()
 	need := map[int]bool{}
 	for _, e := range extra {
 		for _, v := range varsOf(e) {
@@ -276,7 +293,20 @@ func (s *Solver) CheckSliced(pc []*Term, extra []*Term) string {
 // Check asks for satisfiability of pc ∧ extra; with get != nil and a sat answer the values of
 // those terms are returned as SMT-LIB text. The result is "sat", "unsat" or "unknown"; any
 // "(error" output makes the answer "unknown" (inconclusive) and is counted.
-func (s *Solver) Check(pc []*Term, extra []*Term, get []*Term) (string, []string) {
+func (s *Solver) Check(pc []*Term, extra []*Term, get []*Term) (res string, vals []string) {
+	defer func() {
+		if p := recover(); p != nil {
+			d, ok := p.(solverDied)
+			if !ok {
+				panic(p)
+			}
+			res = s.afterCrash(d, func(f *Solver) string {
+				r, v := f.Check(pc, extra, get)
+				vals = v
+				return r
+			})
+		}
+	}()
 	t0 := time.Now()
 	s.Calls++
 	s.sync(pc)
@@ -289,7 +319,6 @@ func (s *Solver) Check(pc []*Term, extra []*Term, get []*Term) (string, []string
 	for r == "" {
 		r = s.line()
 	}
-	var vals []string
 	if strings.HasPrefix(r, "(error") {
 		s.Errors++
 		if os.Getenv("ZX_DEBUG") != "" {
@@ -350,6 +379,53 @@ func (s *Solver) Check(pc []*Term, extra []*Term, get []*Term) (string, []string
 	}
 	s.Time += time.Since(t0)
 	return r, vals
+}
+
+// afterCrash restarts the dead solver and puts the query that killed it to the fallback solver
+// (z3); without one, or if that dies too, the verdict is "unknown" (inconclusive, never success).
+func (s *Solver) afterCrash(d solverDied, ask func(*Solver) string) string {
+	s.Crashes++
+	if os.Getenv("ZX_DEBUG") != "" {
+		fmt.Fprintln(os.Stderr, d.why)
+	}
+	func() {
+		defer func() { recover() }()
+		s.restart()
+	}()
+	if s.noFallback {
+		panic(d) // the fallback itself died
+	}
+	if s.fallback == nil {
+		fb := "z3"
+		if strings.HasPrefix(s.Name, "z3") {
+			fb = "cvc5"
+		}
+		func() {
+			defer func() {
+				if recover() != nil {
+					s.fallback = nil
+				}
+			}()
+			s.fallback = NewSolver(fb, s.timeoutMs)
+			s.fallback.noFallback = true
+		}()
+	}
+	if s.fallback == nil {
+		s.Res["unknown"]++
+		return "unknown"
+	}
+	res := "unknown"
+	func() {
+		defer func() {
+			if recover() != nil {
+				s.fallback.Close()
+				s.fallback = nil
+			}
+		}()
+		res = ask(s.fallback)
+	}()
+	s.Res[res]++
+	return res
 }
 
 // describe prints a term's definition to the given depth (debugging).
